@@ -3,8 +3,11 @@ package props
 import (
 	"bytes"
 	"fmt"
+	"io"
 	"sync"
 	"sync/atomic"
+
+	"github.com/ulikunitz/xz"
 
 	"verif/core"
 	"verif/ref"
@@ -23,6 +26,10 @@ type C03Case struct {
 	DictCap int     `json:",omitempty"`
 	Shape   []Seg   `json:",omitempty"`
 	Enc     []int   `json:",omitempty"`
+	// Src / Drain: kind of source the reader is given and how the caller takes the data out
+	// (sourceOf / drainOf in envkinds.go)
+	Src   int `json:",omitempty"`
+	Drain int `json:",omitempty"`
 }
 
 func init() {
@@ -70,6 +77,17 @@ func c03Judge(r *core.Run, p C03Case, data, plain []byte, site, desc string) {
 	}
 	dc := p.DictCap
 	out, err, proto, pan := xzDecode(data, dc, false)
+	if p.Src != 0 || p.Drain != 0 {
+		pan = core.Guard(func() {
+			var rd io.Reader
+			rd, err = xz.ReaderConfig{DictCap: dc}.NewReader(sourceOf(p.Src, data))
+			if err != nil {
+				return
+			}
+			out, err, proto = drainOf(rd, p.Drain, 4096, 256<<20)
+		})
+		desc += fmt.Sprintf("; source: %s, drained by %s", sourceKindNames[p.Src], drainModeNames[p.Drain])
+	}
 	cls := errClass(err)
 	switch {
 	case pan != nil:
@@ -83,7 +101,7 @@ func c03Judge(r *core.Run, p C03Case, data, plain []byte, site, desc string) {
 	}
 	r.Trace(1)
 	r.Eval(core.Hash(data))
-	r.Nontrivial(core.Hash(site, cls, c03Path(p)))
+	r.Nontrivial(core.Hash(site, cls, c03Path(p), p.Src, p.Drain))
 }
 
 type c03Extreme struct {
@@ -470,7 +488,7 @@ func c03Hetero(r *core.Run, p C03Case) {
 func runC03(r *core.Run) {
 	corpus := bindRef(r)
 	th := thorough(r)
-	r.Rule = "streams from the specification-driven generator: (a) ALL legal operation sequences of depth d over {lit x3, match(len x dist incl. the window edge), rep0 x2, shortrep, rep1-3} from the empty window and after fill prefixes 127/4095/4096/4097 (extended distances covering every distance-slot class); (b) a fixed op list x all 75 property sets; (b3) long runs (maximal matches at distance 1) whose length sweeps 300 consecutive values around the 4 KiB reader dictionary; (b2) eight fixed long operation walks (4000 operations each: trained contexts) x all 75 property sets; (c) every split into <=3 chunks x every legal chunk kind per position with different properties; (d) 4 checks x size fields x header padding x {0,1,2,3 blocks, empty block}, every legal block header size 12..1024, 127..300 blocks; (d2) every list of 1..3 blocks over a menu of 5 blocks with different dictionary sizes, properties, far matches, raw chunks, empty; (f) chunk size fields at their limits (65536 / 65535 compressed bytes, 2 MiB / 2 MiB-1 uncompressed, raw chunks of 65536 and 1 bytes, a single-literal chunk); (g) every one-block stream of that menu decoded by a new reader instance after an instance that failed on another (or the same) stream cut at ~120 offsets; (e) the frozen liblzma corpus and fresh liblzma encodings x ReaderConfig.DictCap. states = LZMA coder states entered; transitions = (state, op kind), distance-slot/length classes, chunk-automaton steps; non-trivial = distinct (case family, outcome, empty?)"
+	r.Rule = "streams from the specification-driven generator: (a) ALL legal operation sequences of depth d over {lit x3, match(len x dist incl. the window edge), rep0 x2, shortrep, rep1-3} from the empty window and after fill prefixes 127/4095/4096/4097 (extended distances covering every distance-slot class); (b) a fixed op list x all 75 property sets; (b3) long runs (maximal matches at distance 1) whose length sweeps 300 consecutive values around the 4 KiB reader dictionary; (b2) eight fixed long operation walks (4000 operations each: trained contexts) x all 75 property sets; (c) every split into <=3 chunks x every legal chunk kind per position with different properties; (d) 4 checks x size fields x header padding x {0,1,2,3 blocks, empty block}, every legal block header size 12..1024, 127..300 blocks; (d2) every list of 1..3 blocks over a menu of 5 blocks with different dictionary sizes, properties, far matches, raw chunks, empty; (f) chunk size fields at their limits (65536 / 65535 compressed bytes, 2 MiB / 2 MiB-1 uncompressed, raw chunks of 65536 and 1 bytes, a single-literal chunk); (g) every one-block stream of that menu decoded by a new reader instance after an instance that failed on another (or the same) stream cut at ~120 offsets; (h) the streams of (b)-(f) again through sources with short reads / data delivered together with io.EOF / bufio, and drained by io.Copy; (e) the frozen liblzma corpus and fresh liblzma encodings x ReaderConfig.DictCap. states = LZMA coder states entered; transitions = (state, op kind), distance-slot/length classes, chunk-automaton steps; non-trivial = distinct (case family, outcome, empty?)"
 	var cases []C03Case
 	def := [3]int{3, 0, 2}
 	// (g) a valid stream decoded by a new instance after an instance that failed in the middle of a
@@ -699,6 +717,33 @@ func runC03(r *core.Run) {
 	r.Sample(map[string]interface{}{"ops": "fill(4096) match(273,4096) match(17,129)"})
 	r.Sample(map[string]interface{}{"ops": "fill(200) " + symsString(fixed) + " x all 75 property sets"})
 	r.Sample(cases[len(cases)-1])
+	// every stream of the families (b)-(f) also through the other kinds of source (short reads, data
+	// together with io.EOF, buffered, ...) and drained by io.Copy
+	{
+		base := cases
+		for _, c := range base {
+			if c.Kind == "liblzma" || (c.Kind == "corpus" && !th) {
+				continue
+			}
+			for _, sk := range []int{4, 5, 2, 6} {
+				if (c.Kind == "walk" || c.Kind == "runs") && sk != 4 && sk != 5 {
+					continue
+				}
+				q := c
+				q.Src = sk
+				if sk == 5 {
+					q.Drain = 1
+				}
+				cases = append(cases, q)
+			}
+			if c.Kind != "walk" && c.Kind != "runs" {
+				q := c
+				q.Drain = 2
+				cases = append(cases, q)
+			}
+		}
+		r.Extra("cases_with_other_source_or_drain", len(cases)-len(base))
+	}
 	r.Parallel(len(cases), "valid streams", func(i int) { c03Run(r, cases[i]) })
 	// coverage of the coder-state × op-kind table
 	miss := []string{}
